@@ -278,6 +278,21 @@ def py_eval(r, env):
         return py_eval(r[2], env)[gen_terms._index_of(r[1])]
     if t == "getitem":
         return py_eval(r[1], env)[int(py_eval(r[2], env))]
+    if t == "getsugar":
+        a = py_eval(r[1], env)
+        index = []
+        for it in r[2]:
+            if it[0] == "s":
+                index.append(slice(None))
+            elif it[0] == "e":
+                index.append(Ellipsis)
+            elif it[0] == "i":
+                index.append(int(it[1]))
+            elif it[0] == "n":
+                index.append(int(env[it[1]]))
+            else:
+                index.append(int(py_eval(it[1], env)))
+        return a[tuple(index)]
     if t == "independent":
         _, fn, rv, bv, dv = r
         x = np.asarray(env[rv], dtype=float)
@@ -693,6 +708,46 @@ def stream_slice_compose(ctx):
     return cases
 
 
+def stream_getitem_enum(ctx):
+    """getitem at EVERY offset, enumerated: event shapes incl. square ones x tensors with 0-2 named inputs (sizes
+    equal to event sizes) x index kind (number, fresh variable, variable that is an input of a sibling, index
+    tensor with its own input, index tensor sharing an input with the indexed tensor) x spelling
+    (`x[:, k]`, `x[..., k]`, `x[:, k, ...]`, chained `x[i][:, k]`)."""
+    rng = ctx.rng
+    cases = []
+    shapes = [(3, 3), (2, 2), (2, 2, 2), (2, 3, 2), (2, 3), (3, 2, 3), (1, 2)]
+    batches = [(), (("i", 2),), (("i", 3),), (("j", 2), ("i", 3)), (("i", 2), ("j", 2))]
+    for shape in shapes:
+        for ins in batches:
+            full = tuple(s_ for _, s_ in ins) + shape
+            data = np.array([rng.choice([-2, -1, 0, 1, 2, 3, 4, 5]) for _ in range(int(np.prod(full)))],
+                            dtype=np.float64).reshape(full)
+            t = ("tensor", ins, "real", shape, data)
+            for off in range(len(shape)):
+                n = shape[off]
+                own = ("tensor", (("m", 2),), n, (), np.array([rng.randrange(n) for _ in range(2)], dtype=np.int64))
+                idxs = [("r", ("num", rng.randrange(n), n)), ("n", "k"), ("r", own)]
+                if ins:
+                    b0 = ins[0]
+                    idxs.append(("r", ("tensor", (b0,), n, (),
+                                       np.array([rng.randrange(n) for _ in range(b0[1])], dtype=np.int64))))
+                for item in idxs:
+                    spell = [tuple(("s",) for _ in range(off)) + (item,)]
+                    if off == len(shape) - 1 and off > 0:
+                        spell.append((("e",), item))
+                    if off < len(shape) - 1:
+                        spell.append(tuple(("s",) for _ in range(off)) + (item, ("e",)))
+                    for items in spell:
+                        cases.append(Case("getitem", ("getsugar", t, items)))
+            # chained: name a leading output dim first (gives the tensor a named input), then a later dim
+            if len(shape) >= 3 and not ins:
+                for off in (1, 2):
+                    cases.append(Case("getitem", ("getsugar", ("getsugar", t, (("n", "i"),)),
+                                                  tuple(("s",) for _ in range(off - 1)) + (("n", "k"),))))
+    ctx.count("getitem:enumerated", len(cases))
+    return cases
+
+
 # ---- exhaustive stratum ------------------------------------------------------------------------------
 
 EXH_CTX = OrderedDict([("i", 2), ("j", 2), ("k", 3)])
@@ -841,6 +896,7 @@ def correspond(ctx):
         ctx.extra["exhaustive_stratum"] = "all depth<=2 expressions over the fixed pool enumerated"
     run_cases(ctx, stream_bitwise(ctx, 120 if quick else 3000))
     run_cases(ctx, stream_slice_compose(ctx))
+    run_cases(ctx, stream_getitem_enum(ctx))
     stream_known_minmax(ctx)
     stream_known_reduce_andor(ctx)
     # fidelity percentages
